@@ -134,14 +134,6 @@ def cases(tier, seed, focus=None):
         for _ in range(30 if thorough else 4):
             out.append({"clause": "orthogonal", "agg": agg, "matrix": _matrix_spec(rng, agg, "orthogonal"),
                         "qseed": rng.randrange(10**6), "rseed": rng.randrange(10**6)})
-        for j in range(40 if thorough else 8):  # threshold family
-            out.append({"clause": "orthogonal", "agg": agg, "matrix": _thr_spec(rng, agg),
-                        "q": ["haar", "house_row", "house_row", "house_axis"][j % 4], "qrow": rng.randrange(6),
-                        "qseed": rng.randrange(10**6), "rseed": rng.randrange(10**6)})
-        for _ in range(10 if thorough else 2):  # scale family
-            out.append({"clause": "orthogonal", "agg": agg, "matrix": _matrix_spec(rng, agg, "orthogonal", wide=True),
-                        "q": rng.choice(["haar", "house_row"]), "qrow": rng.randrange(6),
-                        "qseed": rng.randrange(10**6), "rseed": rng.randrange(10**6)})
     for agg in LAYOUT_AGGS:
         slow = agg["name"] in ("NashMTL",)
         if thorough:
@@ -165,6 +157,19 @@ def cases(tier, seed, focus=None):
             k = rng.randint(1, 3)
             pos = sorted(rng.choice([0, spec["n"], rng.randint(0, spec["n"])]) for _ in range(k))
             out.append({"clause": "zerocol", "agg": agg, "matrix": spec, "positions": pos, "rseed": rng.randrange(10**6)})
+    # ---- families around the thresholds of the code under test (own random stream: the cases above are unchanged)
+    rng = random.Random(80800 + seed)
+    for agg in GRAM_AGGS:
+        for j in range(40 if thorough else 8):  # threshold family
+            out.append({"clause": "orthogonal", "agg": agg, "matrix": _thr_spec(rng, agg),
+                        "q": ["haar", "house_row", "house_row", "house_axis"][j % 4], "qrow": rng.randrange(6),
+                        "qseed": rng.randrange(10**6), "rseed": rng.randrange(10**6)})
+        for _ in range(10 if thorough else 2):  # scale family
+            out.append({"clause": "orthogonal", "agg": agg, "matrix": _matrix_spec(rng, agg, "orthogonal", wide=True),
+                        "q": rng.choice(["haar", "house_row"]), "qrow": rng.randrange(6),
+                        "qseed": rng.randrange(10**6), "rseed": rng.randrange(10**6)})
+    for agg in LAYOUT_AGGS:
+        slow = agg["name"] in ("NashMTL",)
         for j in range(8 if thorough else 3):  # many zero columns (parameters that influence nothing)
             spec = _matrix_spec(rng, agg, "zerocol", cond=rng.choice([3.0, 30.0, 100.0]), wide=(j % 3 == 2))
             count = [20000, 3000, 300][j % 3] if not slow else [3000, 300, 20000][j % 3]
@@ -172,15 +177,12 @@ def cases(tier, seed, focus=None):
             blocks = {"end": [[spec["n"], count]], "start": [[0, count]],
                       "split": [[0, count // 2], [rng.randint(0, spec["n"]), count - count // 2]]}[where]
             out.append({"clause": "zerocol", "agg": agg, "matrix": spec, "blocks": blocks, "rseed": rng.randrange(10**6)})
-        if not thorough:
+        if agg["name"] == "NashMTL":
+            continue  # see _matrix_spec: no wide scales for NashMTL
+        for _ in range(6 if thorough else 1):
             spec = _matrix_spec(rng, agg, "colperm", wide=True)
             out.append({"clause": "colperm", "agg": agg, "matrix": spec, "perm": rng.sample(range(spec["n"]), spec["n"]),
                         "rseed": rng.randrange(10**6)})
-        else:
-            for _ in range(6):
-                spec = _matrix_spec(rng, agg, "colperm", wide=True)
-                out.append({"clause": "colperm", "agg": agg, "matrix": spec,
-                            "perm": rng.sample(range(spec["n"]), spec["n"]), "rseed": rng.randrange(10**6)})
     return out
 
 
